@@ -775,6 +775,22 @@ where
       self.session_regulator.enforce_min_lifespan().await;
     }
 
+    // Release whatever is still parked in the mailbox, e.g. a ScaInitializePipes this session
+    // never got to read: it owns the core's pipe ends. The channel keeps buffered commands alive
+    // for as long as any sender handle exists, so without this a send() blocked on that pipe (or
+    // a recv() on the socket's queue) would never notice that the session is gone.
+    let mut mailbox_closed = false;
+    loop {
+      match self.command_mailbox_receiver.try_recv() {
+        Ok(cmd) => drop(cmd),
+        Err(_) if !mailbox_closed => {
+          let _ = self.command_mailbox_receiver.close();
+          mailbox_closed = true;
+        }
+        Err(_) => break,
+      }
+    }
+
     tracing::info!(
       sca_handle = self.handle,
       "SCA {} fully stopped.",
